@@ -369,7 +369,7 @@ class _Ctx(object):
                           for d in range(self.dim)]
             self.start = np.array(self.a)
             self.end = np.array(self.b)
-            self.lv = [max(t[1]) for t in self.trees]
+            self.lv = [int(l) for l in self.case["lv_label"]] if self.case.get("lv_label") else [max(t[1]) for t in self.trees]
         self.paths = case.get("paths")
         self.nonmid = self.kind == "global" and _has_weighted_ratio(case["trees"])
         self.round = 0
@@ -430,7 +430,7 @@ class _Ctx(object):
             self.trees = config["trees"]
             self.nonmid = config["nonmid"]
             self.relabelled = bool(config.get("relabelled", False))
-            self.lv = [max(t[1]) for t in self.trees]
+            self.lv = [int(l) for l in self.case["lv_label"]] if self.case.get("lv_label") else [max(t[1]) for t in self.trees]
 
     def setup(self):
         """build the grid for the area; returns per-dimension coordinate lists"""
@@ -1059,6 +1059,167 @@ def run_interpolate_grid(case):
 
 
 # ----------------------------------------------------------------------------------------------------------------
+# sub-check: several live grid objects used in an interleaved order (state shared between objects)
+# ----------------------------------------------------------------------------------------------------------------
+def _run_program(case, which, order):
+    """Create fresh grid objects for the object indices in `which` and execute the operations of `order`
+    ([obj index, op name] in this sequence) that belong to them.  -> (results, meta)
+    results[(obj, k)] for the k-th operation of object obj: ("ok", op, array) | ("exc", op, signature fragment, text)
+    meta[obj]: dict(cx, V (table of the last integrate), N)"""
+    import numpy as np
+    from sparseSpACE.Function import FunctionCustom
+    from vlib.core import classify_exception
+    objs = case["objs"]
+    ctx = {i: _Ctx(objs[i]) for i in which}
+    meta = {i: dict(cx=ctx[i], V=None, n_int=0, tables=[]) for i in which}
+    count = {i: 0 for i in which}
+    results = {}
+    for i, op in order:
+        if i not in ctx:
+            continue
+        cx, m = ctx[i], meta[i]
+        k = count[i]
+        count[i] += 1
+        try:
+            if op == "integrate":
+                cx.setup()
+                rng = np.random.default_rng([int(case["rng"]), int(i), int(m["n_int"])])
+                nout = int(objs[i]["out"])
+                V, table = make_typed_table(cx, rng, nout, 1.0, "float")
+                m["V"], m["N"] = V, int(math.prod(cx.shape))
+                m["n_int"] += 1
+                m["tables"].append(V)
+                m["pts"] = grid_points(cx) + random_points(cx, rng, 4)
+                m["coords"] = [sorted(set(cx.xs[d] + [float(cx.start[d] + rng.random() * (cx.end[d] - cx.start[d]))]))
+                               for d in range(cx.dim)]
+                m.setdefault("coords_list", []).append(m["coords"])
+                val = np.asarray(cx.integrate(FunctionCustom(_Table(table), output_dim=nout)), dtype=float).reshape(-1)
+            elif op == "interpolate":
+                val = np.array(cx.interpolate(m["pts"]), dtype=float)
+            elif op == "interpolate_grid":
+                val = np.array(cx.interpolate_grid([list(c) for c in m["coords"]]), dtype=float)
+            elif op == "surplusses":
+                val = np.array(cx.surplusses(), dtype=float)
+            else:
+                raise ValueError(op)
+            results[(i, k)] = ("ok", op, val, m["n_int"] - 1)
+        except Exception as e:  # noqa - classified below: only library exceptions are results
+            kind, frag, text = classify_exception(e)
+            if kind != "lib":
+                raise
+            results[(i, k)] = ("exc", op, frag, "%s: %s" % (type(e).__name__, e), m["n_int"] - 1)
+    return results, meta
+
+
+def _absolute_clauses(scratch, sub, res, m, mats, cond):
+    """the clauses of the statement on ONE result of one object (as if the object had been used alone)"""
+    import numpy as np
+    cx, tag = m["cx"], res[1]
+    if res[0] == "exc":
+        scratch.bad("%s/exception/%s" % (sub, res[2]), "%s: %s raised %s" % (cx.describe(), tag, res[3]))
+        return
+    V = m["tables"][res[3]]
+    nout, N = V.shape[0], int(math.prod(V.shape[1:]))
+    tol = tol_cond(cond)
+    vmax = float(np.max(np.abs(V)))
+    want = np.moveaxis(V, 0, -1).reshape(N, nout)
+    if tag == "interpolate":
+        compare_nodal(scratch, "%s/nodal-values/interpolate" % sub, res[2][:N], want, tol, vmax,
+                      "%s: interpolate(grid points) after integrate()" % cx.describe())
+    elif tag == "surplusses":
+        S_ref = tensor_apply([np.linalg.inv(M) for M in mats], V).reshape(nout, N)
+        compare_nodal(scratch, "%s/surpluses" % sub, res[2], S_ref, tol, float(np.max(np.abs(S_ref))) + 1e-300,
+                      "%s: stored surpluses vs numpy solve of the collocation systems" % cx.describe())
+    elif tag == "interpolate_grid":
+        coords = m["coords_list"][res[3]]               # the coordinates that belong to the integrate() before this read
+        shape = [len(c) for c in coords]
+        if res[2].shape != (int(math.prod(shape)), nout):
+            scratch.bad("%s/nodal-values/interpolate_grid/shape" % sub, "%s: shape %s" % (cx.describe(), res[2].shape))
+            return
+        sel = np.ix_(*[[coords[d].index(x) for x in cx.xs[d]] for d in range(cx.dim)])
+        back = np.moveaxis(res[2].reshape(shape + [nout])[sel], -1, 0)
+        compare_nodal(scratch, "%s/nodal-values/interpolate_grid" % sub, back, V, tol, vmax,
+                      "%s: interpolate_grid at the grid's own coordinates" % cx.describe())
+
+
+def run_interleaved(case):
+    import numpy as np
+    out = Outcome()
+    sub = "interleaved"
+    objs = case["objs"]
+    order = [(int(i), str(op)) for i, op in case["order"]]
+    nobj = len(objs)
+    out.cls("interleaved-objects=%d" % nobj, "kind=" + objs[0]["kind"])
+    inter, meta = _run_program(case, list(range(nobj)), order)
+    # key under which an object stores its surpluses (level vector for global grids; area + level vector for local ones)
+    keys = []
+    for i in range(nobj):
+        cx = meta[i]["cx"]
+        keys.append((cx.kind, tuple(cx.lv)) if cx.kind == "global" else
+                    (cx.kind, tuple(cx.start.tolist()), tuple(cx.end.tolist()), tuple(cx.lv)))
+    shared = any(keys[i] == keys[j] for i in range(nobj) for j in range(i + 1, nobj))
+    if shared:
+        out.cls("same-level-vector-on-several-objects")
+    # was some read preceded by an integrate of ANOTHER object with the same key after the object's own integrate?
+    crossing = False
+    last_int = {}
+    for pos, (i, op) in enumerate(order):
+        if op == "integrate":
+            last_int[i] = pos
+        elif i in last_int:
+            if any(j != i and keys[j] == keys[i] and op2 == "integrate" and last_int[i] < q < pos
+                   for q, (j, op2) in enumerate(order)):
+                crossing = True
+    if crossing:
+        out.cls("read-after-integrate-of-another-object-with-the-same-key")
+    all_ok = True
+    for i in range(nobj):
+        own = [(j, op) for j, op in order if j == i]
+        solo, smeta = _run_program(case, [i], own)
+        cx = meta[i]["cx"]
+        common_classes(out, cx) if getattr(cx, "shape", None) else None
+        scratch = Outcome()
+        colloc = collocation_clauses(scratch, sub, smeta[i]["cx"]) if getattr(smeta[i]["cx"], "shape", None) else None
+        for sig, msg in scratch.violations:
+            out.bad(sig, msg)
+        if colloc is None:
+            all_ok = False
+            continue
+        mats, cond = colloc
+        if not cond <= COND_SKIP:
+            out.cls("ill-conditioned-skipped")
+            all_ok = False
+            continue
+        for k in range(len(own)):
+            ri, rs = inter[(i, k)], solo[(i, k)]
+            a_int, a_solo = Outcome(), Outcome()
+            _absolute_clauses(a_int, sub, ri, meta[i], mats, cond)
+            _absolute_clauses(a_solo, sub, rs, smeta[i], mats, cond)
+            solo_sigs = set(sg for sg, _ in a_solo.violations)
+            for sig, msg in a_int.violations:
+                if sig in solo_sigs:
+                    out.bad(sig, "(also when the object is used alone) " + msg)
+                else:
+                    out.bad(sig + "/only-when-interleaved-with-another-grid-object",
+                            "(object %d of %d, operation %d of its program; the same program on a fresh object used alone "
+                            "passes; order %s) %s" % (i, nobj, k, order, msg))
+            for sig, msg in a_solo.violations:
+                if sig not in set(sg for sg, _ in a_int.violations):
+                    out.bad(sig + "/only-when-used-alone", msg)
+            # beyond the tolerance-based clauses: the interleaved result is the result of the solo run, bit for bit
+            if not a_int.violations and not a_solo.violations and ri[0] == "ok" and rs[0] == "ok":
+                if ri[2].shape != rs[2].shape or not np.array_equal(ri[2], rs[2], equal_nan=True):
+                    dev = float(np.max(np.abs(ri[2] - rs[2]))) if ri[2].shape == rs[2].shape else float("inf")
+                    out.bad("%s/%s-differs-from-solo-run/only-when-interleaved-with-another-grid-object" % (sub, ri[1]),
+                            "%s: object %d operation %d (%s): result differs from the same program run on a fresh object "
+                            "used alone (max deviation %.3g); order %s" % (cx.describe(), i, k, ri[1], dev, order))
+    out.info["max_objects"] = nobj
+    out.info["max_operations"] = len(order)
+    out.nontrivial = all_ok and nobj >= 2 and shared and crossing
+    return out
+
+
+# ----------------------------------------------------------------------------------------------------------------
 # sub-check 5: single basis objects
 # ----------------------------------------------------------------------------------------------------------------
 def nak_level_coordinates(a, b, level, ratios):
@@ -1409,8 +1570,9 @@ def _domain(draw, dim):
 
 
 @st.composite
-def _local_case(draw, tier, poly=False, maxdim=3):
-    dim = draw(st.sampled_from([1, 2, 2, 3] if maxdim >= 3 else [1, 2, 2]))
+def _local_case(draw, tier, poly=False, maxdim=3, dim=None):
+    if dim is None:
+        dim = draw(st.sampled_from([1, 2, 2, 3] if maxdim >= 3 else [1, 2, 2]))
     a, ln = draw(_domain(dim))
     family = draw(st.sampled_from(["lagrange", "bspline"]))
     if family == "lagrange":
@@ -1459,8 +1621,9 @@ def _local_case(draw, tier, poly=False, maxdim=3):
 
 
 @st.composite
-def _global_case(draw, tier, poly=False, maxdim=3):
-    dim = draw(st.sampled_from([1, 1, 2, 2, 3] if maxdim >= 3 else [1, 1, 2]))
+def _global_case(draw, tier, poly=False, maxdim=3, dim=None):
+    if dim is None:
+        dim = draw(st.sampled_from([1, 1, 2, 2, 3] if maxdim >= 3 else [1, 1, 2]))
     a, ln = draw(_domain(dim))
     family = draw(st.sampled_from(["lagrange", "bspline"]))
     if family == "lagrange":
@@ -1548,6 +1711,81 @@ def interpolate_grid_strategy(tier):
             case["trees"] = [t[:8] for t in case["trees"]]
         return case
     return s()
+
+
+def interleaved_strategy(tier):
+    @st.composite
+    def s(draw):
+        nobj = draw(st.sampled_from([2, 2, 3]))
+        dim = draw(st.sampled_from([1, 1, 2]))
+        kind = draw(st.sampled_from(["global", "global", "global", "local"]))
+        same = draw(st.integers(0, 3)) > 0                  # several objects use the same level vector (key)
+        objs = []
+        for i in range(nobj):
+            if kind == "global":
+                c = draw(_global_case(tier, dim=dim))
+                c["trees"] = [t[:(10 if dim == 1 else 6)] for t in c["trees"]]
+            else:
+                c = draw(_local_case(tier, dim=dim))
+                c["lv"] = [min(l, 3) for l in c["lv"]]
+            c.pop("seq", None)
+            c["vtype"] = "float"
+            objs.append(c)
+        if same:
+            label = [draw(st.integers(1, 5)) for _ in range(dim)]
+            share = [True] + [draw(st.integers(0, 3)) > 0 for _ in range(nobj - 1)]
+            if not any(share[1:]):
+                share[1] = True
+            for i, c in enumerate(objs):
+                if not share[i]:
+                    continue
+                if kind == "global":
+                    c["lv_label"] = label
+                else:
+                    # the key of a local grid is (start, end, level vector): same domain, same area, same levels
+                    lmin = 0 if (c["mode"] == "boundary" and objs[0]["mode"] == "boundary") else 1
+                    c["a"], c["len"] = objs[0]["a"], objs[0]["len"]
+                    c["paths"] = objs[0]["paths"] if (c["mode"] == "boundary" and objs[0]["mode"] == "boundary") else [[] for _ in range(dim)]
+                    c["lv"] = [max(lmin, l) for l in objs[0]["lv"]]
+            if kind == "local":
+                for c in objs:                               # boundary-off objects live on the whole domain only
+                    if share[objs.index(c)] and any(o["mode"] != "boundary" for o, sh in zip(objs, share) if sh):
+                        c["paths"] = [[] for _ in range(dim)]
+                        c["lv"] = [max(1, l) for l in objs[0]["lv"]]
+        programs = []
+        for i in range(nobj):
+            reads = ["interpolate", "interpolate", "surplusses", "interpolate_grid"]
+            prog = ["integrate"] + [draw(st.sampled_from(reads)) for _ in range(draw(st.integers(1, 2)))]
+            if draw(st.integers(0, 3)) == 0:
+                prog += ["integrate", draw(st.sampled_from(reads))]
+            programs.append(prog)
+        rest = [i for i in range(nobj) for _ in programs[i][1:]]
+        if draw(st.booleans()):
+            seq = list(range(nobj)) + list(draw(st.permutations(rest)))            # all first integrates, then the rest
+        else:
+            seq = list(draw(st.permutations(list(range(nobj)) + rest)))
+        nxt = [0] * nobj
+        order = []
+        for i in seq:
+            order.append([i, programs[i][nxt[i]]])
+            nxt[i] += 1
+        return dict(objs=objs, order=order, rng=draw(st.integers(0, 2 ** 31 - 1)))
+    return s()
+
+
+def interleaved_fixed():
+    """two / three global grids on the same level vector, read after the other one integrated"""
+    def g(fam, p, mode, trees, out):
+        return dict(kind="global", family=fam, p=p, mode=mode, a=[0.0] * len(trees), len=[1.0] * len(trees), trees=trees,
+                    max_level=11, out=out, vscale=1.0, vtype="float", lv_label=[2] * len(trees), rng=1)
+    t5, t4 = complete_splits(2), [[0, 0.5], [0, 0.5]]
+    res = [dict(objs=[g("lagrange", 2, "boundary", [t5], 1), g("bspline", 3, "boundary", [t5], 1)],
+                order=[[0, "integrate"], [1, "integrate"], [0, "interpolate"], [1, "interpolate"], [0, "surplusses"]], rng=1),
+           dict(objs=[g("bspline", 3, "modified", [t5, t4], 2), g("bspline", 1, "boundary", [t5, t4], 2),
+                      g("lagrange", 3, "noboundary", [t4, t5], 1)],
+                order=[[0, "integrate"], [1, "integrate"], [2, "integrate"], [0, "interpolate_grid"], [1, "interpolate"],
+                       [2, "surplusses"], [0, "interpolate"]], rng=2)]
+    return res
 
 
 _INC = [1.0, 0.5, 0.25, 0.125, 0.3, 0.7, 0.1, 2.0, 0.6180339887498949, 0.05]
@@ -1762,13 +2000,15 @@ def _selftest_library():
 
 SUBS = [
     Sub("roundtrip_local", roundtrip_local_strategy, run_roundtrip_local, dict(quick=1600, thorough=20000),
-        budget_s=dict(quick=9, thorough=120), fixed_cases=local_fixed, case_timeout=60),
+        budget_s=dict(quick=8, thorough=110), fixed_cases=local_fixed, case_timeout=60),
     Sub("roundtrip_global", roundtrip_global_strategy, run_roundtrip_global, dict(quick=2400, thorough=30000),
-        budget_s=dict(quick=10, thorough=140), fixed_cases=roundtrip_fixed, case_timeout=60),
+        budget_s=dict(quick=9, thorough=130), fixed_cases=roundtrip_fixed, case_timeout=60),
     Sub("polynomials", polynomials_strategy, run_polynomials, dict(quick=2400, thorough=30000),
-        budget_s=dict(quick=9, thorough=120), case_timeout=60),
+        budget_s=dict(quick=8, thorough=110), case_timeout=60),
     Sub("interpolate_grid", interpolate_grid_strategy, run_interpolate_grid, dict(quick=320, thorough=3200),
-        budget_s=dict(quick=6, thorough=30), case_timeout=60),
+        budget_s=dict(quick=5, thorough=30), case_timeout=60),
+    Sub("interleaved", interleaved_strategy, run_interleaved, dict(quick=800, thorough=8000),
+        budget_s=dict(quick=6, thorough=50), fixed_cases=interleaved_fixed, case_timeout=60),
     Sub("basis", basis_strategy, run_basis, dict(quick=6400, thorough=80000),
-        budget_s=dict(quick=7, thorough=90), case_timeout=60),
+        budget_s=dict(quick=6, thorough=80), case_timeout=60),
 ]
